@@ -23,7 +23,7 @@ QUICK = [("two-vars", 2, "{0, 1, 3, 6, 12}", "BoxesFull", "{2, 3, 5}", "{2}", "{
          ("three-vars-cross", 3, "{1, 6}", "BoxesWide", "{3}", "{2}", "{TRUE}"),
          ("d1-off", 2, "{1, 6}", "BoxesWideNarrow", "{2, 3, 5}", "{0, 2}", "{TRUE, FALSE}")]
 THOROUGH = [("two-vars", 2, "{0, 1, 3, 6, 12}", "BoxesFull", "{2, 3, 5}", "{0, 2}", "{TRUE}"),
-            ("two-vars-d1", 2, "{0, 1, 3, 6, 12}", "BoxesFull", "{2, 3, 5}", "{2}", "{TRUE, FALSE}"),
+            ("two-vars-d1", 2, "{0, 1, 6}", "BoxesFull", "{2, 3, 5}", "{2}", "{TRUE, FALSE}"),
             ("three-vars", 3, "{1, 6}", "BoxesFull", "{2, 3, 5}", "{2}", "{TRUE}"),
             ("three-vars-cross", 3, "{0, 1, 6}", "BoxesWide", "{3}", "{2}", "{TRUE}")]
 # seeded design defects the invariants must reject (the first one is the defect found in the code)
@@ -56,6 +56,53 @@ def _validate(ck, trace, tag):
     ck.traces += vc.count_scenarios(trace)
     ck.handle_rejections(rej, _sig, tag=tag)
     return rej
+
+
+def _corrupted(ck, wd, trace):
+    """Binding sanity: flipping one logged field of an accepted trace must make TLC reject it."""
+    lines = []
+    resets = 0
+    for ln in open(trace):
+        if ln.startswith('{"e":"Reset"'):
+            resets += 1
+            if resets > 3:
+                break
+        lines.append(ln.rstrip("\n"))
+
+    def flip(pred, mut):
+        out, done = [], False
+        for ln in lines:
+            ev = json.loads(ln)
+            if not done and pred(ev):
+                mut(ev)
+                done = True
+            out.append(json.dumps(ev, separators=(",", ":")))
+        return out if done else None
+
+    def bump(key, idx=None):
+        def m(ev):
+            if idx is None:
+                ev[key] += 1
+            else:
+                ev[key][idx] += 1
+        return m
+    variants = [("wrapper value", flip(lambda e: e["e"] == "Return" and e["out"] == "ok", bump("wv"))),
+                ("wrapped position at return", flip(lambda e: e["e"] == "Return" and e["out"] == "ok", bump("fp", 0))),
+                ("derivative value", flip(lambda e: e["e"] == "Query" and e["vok"] and e["deleg"], bump("val"))),
+                ("delegation flag", flip(lambda e: e["e"] == "Query" and e["deleg"], lambda ev: ev.__setitem__("deleg", False))),
+                ("outcome", flip(lambda e: e["e"] == "Return" and e["out"] == "ok", lambda ev: ev.__setitem__("out", "raise:Exception")))]
+    rejected = []
+    for name, v in variants:
+        if v is None:
+            continue
+        pth = os.path.join(wd, "corrupt.ndjson")
+        open(pth, "w").write("\n".join(v) + "\n")
+        n_ev, rej, st = vc.validate_trace(SPEC, "NumDerivTrace", os.path.join(SPEC, "NumDerivTrace.cfg"), pth, parallel=1)
+        os.remove(pth)
+        if not rej:
+            raise vc.MachineryError("a trace with a corrupted %s is accepted by NumDerivTrace" % name)
+        rejected.append(name)
+    ck.extra["corrupted_traces_rejected"] = rejected
 
 
 def run(tier, seed):
@@ -115,6 +162,8 @@ def run(tier, seed):
         _validate(ck, tr, name[0])
         if name == "random":
             ck.samples += vc.sample_scenarios(tr, 3)
+        if name == "grid" and not ck.violations:
+            _corrupted(ck, wd, tr)
         os.remove(tr)
     ck.extra["driver"] = stats
     ck.exhaustive = True
